@@ -91,13 +91,21 @@ def gen_cases(rng, tier):
             if a["T"]["kind"] == "free" or b_["t0"]["kind"] == "free":
                 couplings.append({"cid": 950 + k, "from": k, "to": k + 1, "time": True})
         tmpl_bspline = rng.choice([1, 2]) if (mode == "clone" and rng.random() < 0.3) else 0
+        tmpl_inf = None
+        if mode == "clone" and base["method"]["cls"] in ("MS", "SS") and base["method"].get("intg") == "rk" and \
+                base.get("dyn") == "ode" and rng.random() < 0.5:
+            tmpl_inf = rng.choice(["inf_der", "inf_inert", "plain"])
         late = rng.random() < 0.25
         if late:
             # the last stage is added after a first transcription, with nothing else declared afterwards
             couplings = [c for c in couplings if c["to"] != nst - 1 and c["from"] != nst - 1]
-        cases.append({"mode": mode, "stages": stages, "couplings": couplings, "pp": ocpgen.rnd(rng, 0.3, 2.0), "late": late, "tmpl_bspline": tmpl_bspline,
+        cases.append({"mode": mode, "stages": stages, "couplings": couplings, "pp": ocpgen.rnd(rng, 0.3, 2.0), "late": late, "tmpl_bspline": tmpl_bspline, "tmpl_inf": tmpl_inf,
                       "template_h": template_h if mode == "clone" else None,
                       "seed": rng.getrandbits(32), "solve": rng.random() < 0.3})
+    for i in range(6 if tier == "quick" else 60):
+        cases.append({"kind": "spline_sub", "N1": rng.choice([2, 3, 4]), "N2": rng.choice([1, 2, 3]), "other": rng.choice(["MS", "DC"]),
+                      "T1": ocpgen.rnd(rng, 0.5, 2, 2), "T2": ocpgen.rnd(rng, 0.5, 2, 2), "x0": ocpgen.rnd(rng, -1, 1),
+                      "seed": rng.getrandbits(32)})
     return cases
 
 
@@ -194,6 +202,22 @@ def build_multistage(case):
         tmpl = rockit.Stage(**kw)
         tb = build.Built(None, tmpl, dict(base_spec, t0=tmpl_h["t0"], T=tmpl_h["T"]))
         C.call("declare(template)", declare_stage_content, tb)
+        if case.get("tmpl_inf"):
+            # a grid='inf' constraint (with inf_der / inf_inert helper symbols) on the template
+            sx = [q for q in base_spec["states"] if q["shape"] == [1, 1] and not q.get("quad")]
+            su = [q for q in base_spec["controls"]]
+            if sx and su:
+                xx = tb.syms[sx[0]["name"]]
+                uu = tb.syms[su[0]["name"]]
+                uu = uu[0] if uu.numel() > 1 else uu
+                if case["tmpl_inf"] == "inf_der":
+                    con = tmpl.inf_der(xx) <= 50.0
+                elif case["tmpl_inf"] == "inf_inert":
+                    con = xx <= tmpl.inf_inert(uu) + 50.0
+                else:
+                    con = xx <= 50.0
+                C.call("subject_to(inf, template)", tmpl.subject_to, con, grid="inf", meta=build.meta_for(8888))
+                case["_tmpl_inf_declared"] = True
         if case.get("tmpl_bspline"):
             # a B-spline variable in the template: every clone gets its own signal
             wb = C.call("variable(bspline, template)", tmpl.variable, grid="bspline", order=case["tmpl_bspline"])
@@ -226,9 +250,72 @@ def build_multistage(case):
     return ocp, pv, pp, builts, tmpl, tmpl_snap, res["counters"]["clone_templates"]
 
 
+def run_spline_sub(case):
+    """SplineMethod as the method of one stage of a multi-stage OCP, next to a shooting stage: the objective is the sum of
+    the stage objectives and the coupling row is there."""
+    import casadi as ca
+    import rockit
+    from ..gen import build
+    from ..obs import nlp
+    res = {"sig": "spline-substage|N%d|%s|N%d" % (case["N1"], case["other"], case["N2"]), "evals": 0, "violations": [],
+           "counters": {"stages": 2, "points": 0, "stage_rows_compared": 0, "coupling_rows": 0, "sibling_checks": 0,
+                        "clone_templates": 0, "spline_substage": 1}}
+    rng = np.random.default_rng(case["seed"])
+    try:
+        ocp = rockit.Ocp()
+        s1 = ocp.stage(t0=0, T=case["T1"])
+        x1, v1, a1 = s1.state(), s1.state(), s1.control()
+        s1.set_der(x1, v1)
+        s1.set_der(v1, a1)
+        s1.add_objective(s1.sum(a1 ** 2) + 0.3 * s1.at_tf(x1) ** 2)
+        s1.subject_to(s1.at_t0(x1) == case["x0"])
+        s1.method(rockit.SplineMethod(N=case["N1"]))
+        s2 = ocp.stage(t0=case["T1"], T=case["T2"])
+        x2, u2 = s2.state(), s2.control()
+        s2.set_der(x2, -0.5 * x2 + u2)
+        s2.add_objective(s2.sum(u2 ** 2) + s2.at_tf(x2) ** 2)
+        if case["other"] == "MS":
+            s2.method(rockit.MultipleShooting(N=case["N2"], intg="rk"))
+        else:
+            s2.method(rockit.DirectCollocation(N=case["N2"], degree=2))
+        ocp.subject_to(s1.at_tf(x1) == s2.at_t0(x2), meta=build.meta_for(901))
+        ocp.solver("ipopt", {"ipopt.print_level": 0, "print_time": False})
+        view = C.call("transcribe", nlp.NlpView, ocp)
+        outs = [C.call("sample(stage)", s1.sample, a1, grid="control")[1], C.call("sample(stage)", s1.sample, x1, grid="control")[1],
+                C.call("sample(stage)", s2.sample, u2, grid="control")[1], C.call("sample(stage)", s2.sample, x2, grid="control")[1]]
+        F = ca.Function("s", [view.x, view.p], [ca.MX(o_) for o_ in outs])
+    except C.RockitRaised as e:
+        res["violations"].append(C.exc_violation(ID, e, "spline-substage"))
+        return res
+    for it in range(3):
+        w = view.random_point(rng)
+        f, atoms = view.atoms(w)
+        A1, X1, U2, X2 = [np.array(v_, dtype=float).reshape(-1) for v_ in F(w, view.p0)]
+        fe = float(np.sum(A1[:case["N1"]] ** 2) + 0.3 * X1[-1] ** 2 + np.sum(U2[:case["N2"]] ** 2) + X2[-1] ** 2)
+        res["evals"] += 2
+        res["counters"]["points"] += 1
+        if abs(f - fe) > 1e-9 * (1 + abs(fe)):
+            res["violations"].append({"kind": "objective", "mech": "C12|objective-not-sum-of-stages",
+                                      "detail": "SplineMethod stage + %s stage: f=%.12g, sum of stage objectives %.12g" % (
+                                          case["other"], f, fe)})
+            return res
+        cpl = [a_[1] for a_ in atoms if a_[2] == 901]
+        res["counters"]["coupling_rows"] += len(cpl)
+        if len(cpl) != 1 or abs(cpl[0] - abs(X1[-1] - X2[0])) > 1e-9 * (1 + abs(X1[-1]) + abs(X2[0])):
+            res["violations"].append({"kind": "coupling", "mech": "C12|coupling-row",
+                                      "detail": "coupling x1(tf) == x2(t0): rows %s, |x1(tf)-x2(t0)| = %.9g" % (
+                                          C.short(cpl), abs(X1[-1] - X2[0]))})
+            return res
+    res["nontrivial"] = True
+    res["sample"] = {"family": "SplineMethod sub-stage", "other": case["other"], "N": [case["N1"], case["N2"]]}
+    return res
+
+
 def run_case(case):
     import casadi as ca
     import rockit
+    if case.get("kind") == "spline_sub":
+        return run_spline_sub(case)
     from ..gen import build
     from ..obs import nlp, coords
     from ..ref import model
@@ -264,6 +351,14 @@ def run_case(case):
             feat = "clone|time=%s|placeholders=%s" % (t_in, ph_)
         res["violations"].append(C.exc_violation(ID, e, feat))
         return res
+    if case.get("_tmpl_inf_declared"):
+        n8 = int(np.sum(view.row_cid == 8888))
+        res["evals"] += 1
+        res["counters"]["inf_in_template"] = 1
+        if n8 == 0 or n8 % len(builts):
+            res["violations"].append({"kind": "clone-inf", "mech": "C12|inf-constraint-of-template-not-in-every-clone",
+                                      "detail": "%d rows of the template's grid='inf' constraint for %d clones" % (n8, len(builts))})
+            return res
     if tmpl is not None:
         res["evals"] += 1
         now = template_snapshot(tmpl)
